@@ -4,6 +4,7 @@ from __future__ import annotations
 from hypothesis import strategies as st
 
 from cpverif import spec as S
+from cpverif import strategies as G
 from cpverif import trackcheck as T
 from cpverif.core import Ctx, Part, enum_part, hyp_part
 from cpverif.model import FORCED, OPEN, TAP, expected_notes
@@ -175,6 +176,9 @@ def _sections(draw, max_ticks):
         tempo.append([draw(st.integers(1, max(1, tick))), draw(st.sampled_from([60000, 10 ** 9, 200001]))])
     if draw(st.integers(0, 5)) == 0:
         res = 10 ** 6
+    lifted = G.lift_items(draw, items, res)
+    if lifted:
+        items, tempo, res = lifted
     return {"res": res, "items": items, "tempo": tempo, "header": draw(st.sampled_from(S.HEADER_LIST)),
             "fmt": draw(st.one_of(st.just(0), st.just(0), st.integers(1, 10 ** 6)))}
 
